@@ -14,6 +14,7 @@ ENGINES = {
  "server": ("harness/server.cpp", "the real QXmppServer on loopback with a logging password checker; raw scripted TCP clients and a logged-in victim are played from Python (lib/rawxmpp.py)"),
  "split": ("harness/split.cpp", "loopback TCP feeder that delivers a byte stream to the real XmppSocket chunk by chunk and records the open/stanza/close events and the observed read sizes"),
  "wire": ("harness/wire.cpp", "scripted fake XMPP server (QTcpServer/QSslSocket on 127.0.0.1:0, incremental XML reader, own XEP-0198 counters, TLS with a committed test certificate, relay mode) and real QXmppClient objects in one event loop; journal of every element in both directions, client signal, task completion and state query"),
+ "ice": ("harness/ice.cpp", "two real QXmppIceConnection agents on loopback UDP behind a relay the harness controls (drops chosen first transmissions, logs every datagram) plus an attacker socket that sends datagrams forged by an independent Python STUN encoder and records everything it receives"),
  "stun": ("harness/stun.cpp", "QXmppStunMessage encode/decode + HMAC/CRC helpers driven by JSON lines; Python hmac/zlib oracle"),
 }
 CHECKS = {
@@ -94,6 +95,10 @@ CHECKS["C16"] = dict(engine="server", cat="exploration",
    text="raw TCP client scripts against the real QXmppServer while a properly authenticated victim is online: every word of length <= 4 (quick) / 5 (thorough) over an 8-letter alphabet {open stream, PLAIN right/wrong, bind, message/presence/iq with from absent or victim's}, every pair over a 27-letter alphabet after a stream open (wrong domain, malformed/prefix/authzid credentials, DIGEST-MD5 right/wrong, ANONYMOUS, unknown mechanism, SASL2, abort, response without auth, session, from third/own/empty), random words up to length 12; unique markers tie each delivery at the victim to its send event and the sender's authentication state; oracle: nothing from an unauthenticated connection is delivered or answered, clientConnected only for authenticated users, delivered stanzas carry the authenticated sender's JID, SASL success only for credentials the checker approves; the server process runs under ASan/UBSan",
    note="no server extensions are loaded (routing by destination only); server-to-server paths are not exercised; attacker-side replies are awaited with short timeouts, deliveries are fenced logically on the victim's connection",
    tech="runtime monitoring: marker-tracking oracle over the transcripts of raw scripted clients against the real server, sanitizers on the server process")
+CHECKS["C15"] = dict(engine="ice", cat="exploration",
+   text="forged STUN datagrams (Binding request / success / error / indication x integrity {absent, wrong key, the other side's key, valid value over altered content, cut off at the integrity value, all-zero} x username {right, wrong, reversed, none} x USE-CANDIDATE x role attribute x fingerprint) sent from an attacker socket to a listening QXmppIceConnection before, during and after an honest negotiation, or with no honest peer; the attacker answers any check it is sent without integrity; oracle: the attacker receives no success response, no request and no application data, the component never connects or selects a pair because of such traffic, data sent afterwards still reaches the honest peer; positive control: a sender that knows the credentials is answered. Honest negotiations through a relay that drops every subset of the first 4 first-transmissions per direction, both role assignments, both candidate orders, then unique datagrams of 1..1400 bytes both ways must arrive exactly once unchanged, connected() exactly once; candidate priorities are checked against RFC 5245 4.1.2.1",
+   note="loopback only, host candidates only (no STUN/TURN server in the sandbox); STUN error responses to the attacker are recorded, not judged; wall-clock watchdog firing is inconclusive",
+   tech="runtime monitoring: packet-forging attacker with receive-log oracle + relay with first-transmission loss injection and datagram conservation check, under ASan/UBSan")
 REASON_TODO = "check not built yet in this session (planned, see DESIGN.md §2)"
 
 def main():
@@ -101,7 +106,7 @@ def main():
     m = {"version": 1, "setup_cmd": "./run setup",
          "hooks": {"guard": "QXMPP_VERIF_HOOKS",
                    "enable": "checks build /repo out of tree (static, ASan+UBSan) with -DQXMPP_VERIF_HOOKS in CMAKE_CXX_FLAGS (lib/vf.py FLAVOURS)",
-                   "baseline_off_cmd": "cmake --build /repo/_build -j16 && ctest --test-dir /repo/_build -j8 --timeout 900",
+                   "baseline_off_cmd": "cmake --build /repo/_build -j16 && ctest --test-dir /repo/_build -j1 --timeout 900",
                    "source_commits": hooks["source_commits"], "add_only": True},
          "engines": [], "checks": [], "not_applicable": [],
          "notes": "runtime monitoring / sanitizers only; every check: ./run <id> quick|thorough, exit 0 held / 1 violation / 2 harness failure or inconclusive; see DESIGN.md"}
